@@ -181,9 +181,7 @@ def family(ctx):
             OPS[inst["op"]], cz(inst["opset"]), copt(bl, U.cql), cbool(inst["bias"] == "overridable"))
         cases.append(f"({lit}, {copt(obs, cnat)})")
         meta.append(inst)
-    ok, di, df, raw = U.two_index_lists(ctx, ["OV.Rules.OptionalBias"], "From Coq Require Import QArith.\n"
-                                        f"Definition cases : list ob_case := {clist(cases)}.\n"
-                                        "Definition dis_impl := ob_dis false cases.\nDefinition dis_fixed := ob_dis true cases.")
+    ok, di, df, raw = U.eval_cases(ctx, ["OV.Rules.OptionalBias"], "ob_case", cases, "ob_dis", prelude="From Coq Require Import QArith.\n", chunk=500)
     if not ok:
         ctx.tie_broken("correspondence", f"{FAM}:model-evaluation", raw[-800:])
         return
